@@ -65,7 +65,7 @@ class C02(object):
                    'derived-only exactness is demanded only with reduction on and only for variables that a '
                    'conservative independent graph analysis of the submitted text proves unreferenced']
     required_counters = ('equations_judged', 'exact_judged', 'lag_judged', 'hostile.loud', 'failpoint.recovered',
-                         'model_level.judged')
+                         'model_level.judged', 'rival_user_function.cases', 'solver_reused_for_variant.cases')
 
     def n_cases(self, tier):
         return 400 if tier == 'quick' else 40000
@@ -107,7 +107,25 @@ class C02(object):
             tol = min(tol, 1e-2)
         spec = G.gen_affine(rng, nonlinear=nonlinear, cyclic=cyclic,
                             tol=tol if rng.random() < 0.5 else None)
-        return {'kind': 'system', 'spec': spec, 'text': G.render(spec), 'tol': tol,
+        earlier = None
+        if rng.random() < 0.25:
+            # the same solver object first reads and solves a VARIANT of the system (same names, other coefficients)
+            import copy as _copy
+            var = _copy.deepcopy(spec)
+            for sm in var['simul']:
+                sm['const'] = sm['const'] * 0.5 + 1.0
+                sm['coef'] = {k_: v * 0.5 for k_, v in sm['coef'].items()}
+            for cst in var['consts']:
+                cst['value'] = cst['value'] + 1.0
+            for dd in var['decos']:
+                dd['expr'] = '2.0*(' + dd['expr'] + ')'
+            earlier = G.render(var)
+        userfn = None
+        if rng.random() < 0.2:
+            # a user function (Lipschitz 0.1) used by the first equation; a rival solver registers the same name
+            userfn = spec['simul'][0]['name']
+            spec['simul'][0]['nl'] = ((spec['simul'][0]['nl'] + ' + ') if spec['simul'][0]['nl'] else '') + 'uf(%s)' % userfn
+        return {'kind': 'system', 'spec': spec, 'text': G.render(spec), 'tol': tol, 'earlier': earlier, 'userfn': userfn,
                 'tol_via': 'line' if spec['tol'] is not None else 'param',
                 'reduction': rng.random() < 0.6, 'trace': rng.choice([None, None, 1, spec['maxtime']]),
                 'cap': rng.choice([5000, 5000, 5000, 400, 60, 10, 1])}
@@ -160,6 +178,20 @@ class C02(object):
             solver.TraceStep = case['trace']
             if case['tol_via'] == 'param':
                 solver.ParameterErrorTolerance = case['tol']
+            if case.get('userfn'):
+                solver.AddFunction('uf', lambda v: 0.1 * v + 1.0)
+                funcs['uf'] = lambda v: 0.1 * v + 1.0
+                rival = EquationSolver('q = uf(q)*0 + 1\nMaxTime = 1')
+                rival.AddFunction('uf', lambda v: 0.1 * v + 5.0)      # another solver, same name, another function
+                counters['rival_user_function.cases'] = 1
+            if case.get('earlier'):
+                try:
+                    with contextlib.redirect_stdout(io.StringIO()):
+                        solver.ParseString(case['earlier'])
+                        solver.SolveEquation()
+                except Exception:
+                    pass
+                counters['solver_reused_for_variant.cases'] = 1
         elif kind in ('hostile', 'userfn'):
             solver.MaxIterations = case['cap']
             if case.get('tol') is not None:
@@ -231,6 +263,8 @@ class C02(object):
         # the monitor evaluates user functions by their *steady* meaning, not the failpoint's state
         if case['kind'] == 'failpoint':
             return {'myfn': lambda x: 0.25 * x + 1.0}
+        if case['kind'] == 'system' and case.get('userfn'):
+            return {'uf': lambda v: 0.1 * v + 1.0}
         if case['kind'] == 'userfn':
             return {'myfn': (lambda x: float('inf')) if case['fn'] == 'inf_after' else fp_nan}
         return None
